@@ -7,5 +7,6 @@ CONSTANTS
   TTLs <- TTLsGen
   MaxImports = 2
   Gen = TRUE
+  Dev = "none"
 INVARIANT GenInv
 CHECK_DEADLOCK FALSE
